@@ -113,7 +113,7 @@ func largeCase(c *run.Ctx) run.Result {
 	so, _ := genVec(r, -2, 2)
 
 	// references and point-level results
-	rot := quatMatrix(qOf(g.q))
+	rot := g.rotation()
 	wantRot, wantTRS, wantTr, wantSc, wantScO := make([]v3, n), make([]v3, n), make([]v3, n), make([]v3, n), make([]v3, n)
 	magRot, magTRS, magTr, magSc, magScO := make([]float64, n), make([]float64, n), make([]float64, n), make([]float64, n), make([]float64, n)
 	ptRot, ptTRS := make([]v3, n), make([]v3, n)
